@@ -1,6 +1,6 @@
 (* extract/Entry_E5d.v — entry points of the reference bookkeeping model (C08). *)
 From Coq Require Import ZArith QArith List String Bool.
-From Pico Require Import Num PyStr Value CheckPico Refs Noise Entry_E5c.
+From Pico Require Import Num PyStr Value CheckPico Refs Noise Termination Entry_E5c.
 Import ListNotations.
 Local Open Scope string_scope.
 
@@ -59,6 +59,14 @@ Definition entry_E5d (orc : oracle) (name : string) (v : value) : option value :
     (* el_by_id is captured once, before the first pass *)
     Some (VL (map VS (ids (passes 6 (fun i => find_id 64 i root) root))))
   else if name =? "clean_root" then Some (v_nnode 64 (clean_root (nnode_of 64 v)))
+  else if name =? "use_check" then Some (VB (use_check (use_graph href_of (xnode_of 64 v))))
+  else if name =? "follow" then
+    (* [[id, href|None] ...], start, limit *)
+    let tbl := map (fun e => (getS (arg 0 e), optS_of (arg 1 e))) (getL (arg 0 v)) in
+    Some (match follow (fun s => assoc_str_opt s tbl) (Z.to_nat (getZ (arg 2 v))) 0 (getS (arg 1 v)) with
+          | Resolved d => VL [VS "resolved"; VQ (inject_Z (Z.of_nat d))]
+          | Dangling d => VL [VS "dangling"; VQ (inject_Z (Z.of_nat d))]
+          | RecursionError => VL [VS "recursion"] end)
   else if name =? "stroke_split_ids" then
     Some (VL (map v_optS (stroke_split_ids (optS_of (arg 0 v)) (getB (arg 1 v)))))
   else None.
